@@ -365,6 +365,57 @@ def validate_trace(ctx: Ctx, events, name="trace"):
     return reports[-1]["bad"]
 
 
+def complex_cases(recs):
+    """C01_Complex.tla: Gaussian-integer points / lines / planes; all API forms of the same multilinear operation."""
+    g = import_geometer()
+    from geometer.exceptions import LinearDependenceError
+    out = []
+    Z = lambda z: np.array(z[0]) + 1j * np.array(z[1])  # noqa: E731
+    for d in recs:
+        r, st = d["r"], d["s"]
+        args = [Z(a) for a in r["args"]]
+        exp = Z(r["out"])
+        dep = st == "dependent"
+        if r["t"] == "j2":
+            P = [g.Point(a) for a in args]
+            forms = [("join(point,point)/2D/complex", lambda: g.join(P[0], P[1])), ("join(point,point)/2D/complex/swapped", lambda: g.join(P[1], P[0])),
+                     ("Line(point,point)/2D/complex", lambda: g.Line(P[0], P[1]))]
+        elif r["t"] == "m2":
+            L = [g.Line(a) for a in args]
+            forms = [("meet(line,line)/2D/complex", lambda: g.meet(L[0], L[1])), ("meet(line,line)/2D/complex/swapped", lambda: g.meet(L[1], L[0]))]
+        elif r["t"] == "j3":
+            P = [g.Point(a) for a in args]
+            forms = [("join(point,point,point)/3D/complex", lambda: g.join(P[0], P[1], P[2])),
+                     ("join(point,point,point)/3D/complex/permuted", lambda: g.join(P[2], P[0], P[1])),
+                     ("join(line3,point)/3D/complex", lambda: g.join(g.join(P[0], P[1]), P[2])),
+                     ("join(point,line3)/3D/complex", lambda: g.join(P[0], g.join(P[1], P[2]))),
+                     ("Plane(line3,point)/3D/complex", lambda: g.Plane(g.Line(P[1], P[2]), P[0]))]
+        else:
+            E = [g.Plane(a) for a in args]
+            forms = [("meet(plane,plane,plane)/3D/complex", lambda: g.meet(E[0], E[1], E[2])),
+                     ("meet(line3,plane)/3D/complex", lambda: g.meet(g.meet(E[0], E[1]), E[2])),
+                     ("meet(plane,line3)/3D/complex", lambda: g.meet(E[0], g.meet(E[1], E[2])))]
+        case = {"t": r["t"], "args": r["args"]}
+        for site, fn in forms:
+            try:
+                res = fn()
+                arr = np.asarray(res.array, dtype=complex).reshape(-1)
+                if dep:
+                    # a dependent configuration must raise (an inner step of a two-step form may raise as well)
+                    out.append(dict(cls="silent", site=site, stratum=st, case=case, expected="LinearDependenceError", observed=arr.tolist().__repr__()))
+                elif not (arr.shape == exp.shape and same_class(arr, exp)):
+                    out.append(dict(cls="value", site=site, stratum=st, case=case, expected=str(exp.tolist()), observed=str(arr.tolist())))
+            except LinearDependenceError:
+                if not dep:
+                    # two-step forms: the inner join/meet of two of the arguments may itself be dependent only if all three are
+                    out.append(dict(cls="raise-on-independent", site=site, stratum=st, case=case, expected=str(exp.tolist()),
+                                    observed="raised LinearDependenceError"))
+            except Exception as e:  # noqa: BLE001
+                out.append(dict(cls="value" if not dep else "error-class", site=site, stratum=st, case=case,
+                                expected=str(exp.tolist()) if not dep else "LinearDependenceError", observed=f"raised {type(e).__name__}: {e}"))
+    return out
+
+
 def _work(job):
     kind = job[0]
     try:
@@ -376,6 +427,8 @@ def _work(job):
             return roundtrip_cases(job[1])
         if kind == "empty":
             return empty_case(job[1])
+        if kind == "complex":
+            return complex_cases(job[1])
     except Exception as e:  # noqa: BLE001  -- a bug of the harness, not a verdict
         import traceback
 
@@ -479,11 +532,43 @@ def run(ctx: Ctx) -> int:
             di += m
             jobs.append(("batch", f, chunk, shape))
         jobs.append(("empty", f))
+    # complex (Gaussian integer) coordinate vectors: C01_Complex.tla
+    cfgc = cfg_text(constants={"Tasks": {S(x) for x in ("j2", "m2", "j3", "m3")}, "DoDump": True},
+                    invariants=["ResultIncident", "RealAgrees", "RepeatedIsZero"], constraints=["Dump"])
+    rc = ctx.tlc("C01_Complex", cfgc, dump=True)
+    crecs = list(read_dump(rc["dump"]))
+    cstrata = {}
+    for x in crecs:
+        cstrata[(x["r"]["t"], x["s"])] = cstrata.get((x["r"]["t"], x["s"]), 0) + 1
+    for tsk in ("j2", "m2", "j3", "m3"):
+        for need in ("genuinely-complex", "complex-multiple-of-real", "dependent", "real"):
+            if not cstrata.get((tsk, need)):
+                raise MachineryError(f"complex stratum {(tsk, need)} never visited (vacuous)")
+    if ctx.tier == "quick":
+        rng.shuffle(crecs)
+        keep = [x for x in crecs if x["r"]["t"] in ("j2", "m2")] + [x for x in crecs if x["r"]["t"] in ("j3", "m3")][:6000]
+    else:
+        keep = crecs
+    for i in range(0, len(keep), 400):
+        jobs.append(("complex", keep[i:i + 400]))
     ctx.log(f"{len(jobs)} replay jobs")
     with Pool(16) as pool:
         results = pool.map(_work, jobs, chunksize=4)
     nrep = 0
     for job, res in zip(jobs, results):
+        if job[0] == "complex":
+            for c in job[1]:
+                ctx.count("complex/" + c["s"])
+                ctx.nontrivial(("complex", json.dumps(c["r"]["args"])))
+            nrep += len(job[1])
+            for m in res:
+                if m["cls"] == "machinery":
+                    raise MachineryError(m["observed"])
+                inscope = (m["cls"] in ("value", "raise-on-independent")) if prop == "C01" else \
+                          (m["cls"] in ("silent", "error-class", "mask", "raise-on-independent"))
+                if inscope:
+                    ctx.mismatch(m["site"], m["stratum"], m["case"], m["expected"], m["observed"], m["cls"])
+            continue
         cs = [] if job[0] == "empty" else (job[2] if job[0] != "rt" else job[1])
         nrep += len(cs) * (len(job[3]) if job[0] == "single" else 1)
         for c in cs:
